@@ -67,7 +67,10 @@ def ir_ty(t):
 def lit(v):
     """A field default / literal as a tagged PyVal."""
     if isinstance(v, TagRef):
-        return ['U', ref_of(v.union_data_type), v.tag_name, ['n']]
+        u = v.union_data_type
+        while isinstance(u, Alias):      # a field typed through an alias keeps the alias in its TagRef
+            u = u.data_type
+        return ['U', ref_of(u), v.tag_name, ['n']]
     if v is None:
         return ['n']
     if isinstance(v, bool):
